@@ -134,7 +134,23 @@ pub fn typed(raw: &RawAttribute, tid: TransactionId, with_enc: bool) -> Value {
             let list: Vec<u16> = v.chunks(2).map(|c| u16::from_be_bytes([c[0], c[1]])).collect();
             let has_all = list.iter().all(|x| a.has_attribute(AttributeType::new(*x)));
             let lt: Vec<AttributeType> = list.iter().map(|x| AttributeType::new(*x)).collect();
-            json!({"list": list, "has_all": has_all, "re": UnknownAttributes::new(&lt).to_raw().to_bytes()})
+            // membership is the only field accessor of this attribute: it must hold for the encoded 16-bit entries and for
+            // nothing else - asked for every type (short lists) or for the types a sloppy search would find (bytes of
+            // neighbouring entries read together, halves swapped, one bit away)
+            let set: std::collections::BTreeSet<u16> = list.iter().copied().collect();
+            let mut cands: Vec<u16> = if list.len() <= 24 { (0..=u16::MAX).collect() } else { vec![] };
+            if list.len() > 24 {
+                for w in v.windows(2).take(4096) { cands.push(u16::from_be_bytes([w[0], w[1]])); cands.push(u16::from_be_bytes([w[1], w[0]])); }
+                for x in list.iter().take(2048) { for b in 0..16 { cands.push(x ^ (1 << b)); } cands.push(x & 0xff); cands.push(x >> 8); }
+            }
+            let has_extra: Vec<u16> = cands.into_iter().filter(|t| !set.contains(t) && a.has_attribute(AttributeType::new(*t))).take(4).collect();
+            // the same list assembled entry by entry (add_attribute keeps an entry it already has: compared for lists without repeats)
+            let re_add = if set.len() == list.len() {
+                let mut u = UnknownAttributes::new(&[]);
+                for t in &lt { u.add_attribute(*t); }
+                Some(u.to_raw().to_bytes())
+            } else { None };
+            json!({"list": list, "has_all": has_all, "has_extra": has_extra, "re_add": re_add, "re": UnknownAttributes::new(&lt).to_raw().to_bytes()})
         }),
         Realm::TYPE => dec!(Realm, |a: &Realm| json!({"text": a.realm().as_bytes().to_vec(),
             "re": Realm::new(a.realm()).map(|x| x.to_raw().to_bytes()).ok()})),
